@@ -80,6 +80,11 @@ def main():
                     for fn, s in (st.get("functions") or {}).items():
                         if s != "ok":
                             ctx.notes.append(f"translator: {m}.{fn}: {s}")
+                            # a function that has LEFT the translatable subset is no longer regenerated: the theorems
+                            # then speak about its previous definition, i.e. tie T no longer checks for it (the committed
+                            # baseline lists the functions for which this is the documented state of the pinned tree)
+                            if f"{m}.{fn}" not in core.translator_baseline():
+                                broken.append({"obligation": "translator", "detail": f"{m}.{fn} is no longer regenerated from the source: {s}"[:400]})
                 drv = ["ScoresVerif.Driver.Loop"] + list(getattr(mod, "DRIVER_DEPS", []))
                 ok, out = core.lake_build(drv)
                 checker_cmds.append("cd lean && lake build " + " ".join(drv))
